@@ -16,11 +16,13 @@ Clauses (DESIGN §5 C11):
     number of earlier reads, on the object, its parents and its descendants; contents never change
       reported_value_is_fresh_value, every_logged_value_is_fresh, history_read_equals_fresh_read,
       order_and_number_of_reads_irrelevant, pure_history_preserves_contents, read_changes_caches_only,
-      repaired_table_reports_fresh_values, invariant_keys_may_be_kept
+      repaired_table_reports_fresh_values, invariant_keys_may_be_kept,
+      reads_outside_impure_operations_report_fresh_values, reads_outside_impure_operations_preserve_contents
+      (the table of the tree as it is: pure except the operations of known finding D9b)
  b. with cache inheritance under a non-invariant derivation, or with an in-place write, the conclusion
     fails (the D8 / D9 / D7 behaviours)
       stale_cache_counterexample, inplace_cached_value_write_counterexample,
-      constructor_write_counterexample
+      inplace_contents_write_counterexample, constructor_write_counterexample
  c. seeded simulation is a function of the seed alone
       seeded_simulation_independent_of_prior_state, seeded_history_outputs_agree,
       unseeded_simulation_depends_on_state
@@ -173,6 +175,37 @@ theorem invariant_keys_may_be_kept (E : Effects κ γ τ σ ν)
     simp only [hlen, hd, Spec.depVals, Option.some.injEq]
     rw [hc, hv]
 
+/-- (a) **the table of the tree as it is**: pure except for a set of operations (known finding D9b:
+    `MapperValued.values_masked` and what is built on it).  If `S` is a set of keys that write nothing in
+    place and is closed under "reads" (`E.CleanOn S`), constructors write nothing, and the history only
+    reads keys of `S` (derivations and constructions are unrestricted), then the read of a key of `S`
+    reports the fresh-object value — the impure operations elsewhere in the table are irrelevant. -/
+theorem reads_outside_impure_operations_report_fresh_values (E : Effects κ γ τ σ ν) (S : κ → Prop)
+    (hS : E.CleanOn S) (hctor : ∀ t, E.ctorWrites t = []) (hk : KeepSound E)
+    (fuel : Nat) (hist : List (Impl.Step κ γ τ σ)) (hin : ReadsIn S hist)
+    (o : Nat) (k : κ) (hkS : S k) (h' : Heap κ σ ν) (v : ν)
+    (hr : Impl.step E fuel (Impl.run E fuel hist []).1 (.read o k) = (h', some v)) :
+    ∃ m, Spec.value E m
+        (Spec.erase (Impl.run E fuel (hist.filter Impl.Step.isStructural) []).1) o k = some v := by
+  rw [run_purify E S hS hctor fuel hist [] hin, step_purify E S hS hctor fuel _ (.read o k) hkS] at hr
+  obtain ⟨m, hm⟩ := reported_value_is_fresh_value E.purify (purify_pure E) (keepSound_purify E hk)
+    fuel fuel hist o k h' v hr
+  refine ⟨m, ?_⟩
+  rw [run_purify E S hS hctor fuel _ [] (filter_readsIn S hist), ← value_purify]
+  exact hm
+
+/-- (a) and such histories change no contents: an object present after `pre` has the same contents and
+    parent links after any continuation `hist` that reads only keys of `S`. -/
+theorem reads_outside_impure_operations_preserve_contents (E : Effects κ γ τ σ ν) (S : κ → Prop)
+    (hS : E.CleanOn S) (hctor : ∀ t, E.ctorWrites t = []) (hk : KeepSound E)
+    (fuel : Nat) (pre hist : List (Impl.Step κ γ τ σ)) (hpre : ReadsIn S pre) (hin : ReadsIn S hist)
+    (o : Nat) (ob : Obj κ σ ν) (ho : (Impl.run E fuel pre []).1[o]? = some ob) :
+    ∃ ob', (Impl.run E fuel hist (Impl.run E fuel pre []).1).1[o]? = some ob'
+      ∧ ob'.contents = ob.contents ∧ ob'.parents = ob.parents := by
+  rw [run_purify E S hS hctor fuel pre [] hpre] at ho ⊢
+  rw [run_purify E S hS hctor fuel hist _ hin]
+  exact pure_history_preserves_contents E.purify (purify_pure E) (keepSound_purify E hk) fuel pre hist o ob ho
+
 /-! ### (b) what goes wrong when the table is not pure / not keep-sound: the D8, D9, D7 behaviours -/
 
 /-- contents are numbers, key `k` reports `contents + k`, the derivation adds 10 -/
@@ -187,6 +220,19 @@ def demo (keep : Bool) (vw : List (Nat × Nat × (Nat → Nat))) (cw : List (Nat
   apply := fun _ c => c + 10
   keeps := fun _ _ => keep
   ctorWrites := fun _ => cw
+
+/-- object 0 = the caller's array (key 0 = its bytes); object 1 = a valued mapper built from it: key 2 =
+    `values` (reads the array), key 1 = `values_masked` (reads the array, then zeroes it in place) -/
+def d9b : Effects Nat Unit Unit Nat Nat where
+  compute := fun k c vs => if k = 0 then c else 100 * (k % 2) + vs.sum + (if k = 2 then 100 else 0)
+  cached := fun _ => false
+  deps := fun k => if k = 0 then [] else [(1, 0)]
+  drops := fun _ => []
+  cwrites := fun k => if k = 1 then [(1, fun _ => 0)] else []
+  vwrites := fun _ => []
+  apply := fun _ c => c
+  keeps := fun _ _ => false
+  ctorWrites := fun _ => []
 
 /-- (b, D8) the derived object inherits the cache under a derivation that changes the quantity: after
     `read; derive; read` the derived object reports the *source's* value 1, a freshly built equal object
@@ -209,6 +255,16 @@ theorem inplace_cached_value_write_counterexample :
     (Impl.run (demo false [(1, 0, fun _ => 0)] []) 8
         [.construct () 5 [], .construct () 7 [0], .read 0 0, .read 1 1, .read 0 0] []).2
       = [none, none, some 5, some 8, some 0] := by
+  decide
+
+/-- (b, D9b — still in the tree, known finding) a quantity of a child object whose body edits the
+    *contents* of the object it was given (`MapperValued.values_masked` zeroing entries of the caller's
+    `values` array): the caller's array reports 7 before the read and 0 after, and the child's own
+    quantity `values` computed from it changes from 107 to 100. -/
+theorem inplace_contents_write_counterexample :
+    (Impl.run d9b 8
+        [.construct () 7 [], .construct () 3 [0], .read 0 0, .read 1 2, .read 1 1, .read 0 0, .read 1 2] []).2
+      = [none, none, some 7, some 107, some 107, some 0, some 100] := by
   decide
 
 /-- (b, D7) a constructor that edits the object it is given (`Grid2D(values=arr, mask=…)` masking the
@@ -279,6 +335,22 @@ example :
       [.construct () 1 [], .construct () 2 [0], .read 1 2] []).1.map fun ob => ob.cache.map (·.1))
       = [[0], [2]] := by
   decide
+
+/-- the D9b table is clean on the keys other than `values_masked` … -/
+example : d9b.CleanOn (fun k => k ≠ 1) := by
+  intro k hk
+  refine ⟨by simp [d9b, hk], rfl, ?_⟩
+  intro d hd
+  by_cases h0 : k = 0
+  · simp [d9b, h0] at hd
+  · simp [d9b, h0] at hd
+    rw [hd]; simp
+/-- … and a history reading only those keys satisfies `ReadsIn` -/
+example : ReadsIn (fun k => k ≠ 1)
+    ([.construct () 7 [], .construct () 3 [0], .read 0 0, .read 1 2] : List (Impl.Step Nat Unit Unit Nat)) := by
+  intro s hs
+  simp at hs
+  rcases hs with h | h | h | h <;> subst h <;> simp
 
 /-- a keep-sound table that does keep a key: `copy` (apply = id) keeps everything -/
 example : KeepSound ({ demo true [] [] with apply := fun _ c => c } : Effects Nat Unit Unit Nat Nat) :=
